@@ -142,6 +142,13 @@ func (vc *VC) allocObject(st *State, t types.Type) Val {
 func (vc *VC) idxCheck(st *State, idx, n string, p token.Pos, what string) {
 	k := vc.count("idx")
 	g := And(Le("0", idx), Lt(idx, n))
+	if vc.depth == 0 && vc.Con != nil && vc.Con.Has("nosafety") {
+		// "nosafety": index obligations of this function are not generated; what is proved about it holds for the
+		// executions that do not panic on an index (reported as an assumption)
+		vc.note("index-in-range obligations of " + vc.Fn.Name() + " are not generated (contract says nosafety): its other obligations are proved for executions that do not panic on an index")
+		st.assume(vc, g)
+		return
+	}
 	vc.addObl("idx", fmt.Sprintf("idx#%d", k), st, g, p, nil, what)
 	st.assume(vc, g)
 }
